@@ -23,7 +23,13 @@ THEOREMS = [
     "Vinegar.C13.aggregate_version_injective",
     "Vinegar.C13.composite_version_injective",
     "Vinegar.C13.composite_version_changes",
-    "Vinegar.C13.merge_assoc_partial",
+    "Vinegar.C13.merge_assoc",
+    "Vinegar.C13.merge_assoc_ok_iff",
+    "Vinegar.C13.merge_assoc_typeerror_iff",
+    "Vinegar.C13.merge_assoc_outcome",
+    "Vinegar.C13.merge_assoc_error_site_differs",
+    "Vinegar.C13.merge_wf",
+    "Vinegar.C13.append_unseen_assoc",
 ]
 TRUSTED_BASE = [
     "Lean 4 kernel; axioms of every listed theorem audited each run to be within {propext, Classical.choice, Quot.sound}",
@@ -47,13 +53,18 @@ ASSUMPTIONS = [
     "(the MD5 fallback encodes with errors='ignore', which would identify such strings).",
     "Chained sources are harness test doubles (scripted const / raise / echo-preceding-data / system-id behaviours) "
     "subclassing the real DataSource; the composite is built by the real get_composite_data_source.",
-    "Associativity is proved only per key for one-level trees with both flags off (merge_assoc_partial); in general it "
-    "rests on the differential check of error-free triples (clause assoc: both bracketings of the real merge agree).",
+    "Associativity (merge_assoc, merge_assoc_ok_iff, merge_assoc_typeerror_iff, merge_assoc_outcome) is proved for all "
+    "dictionaries of the value domain (distinct keys at every level — what a Python dict is) and all flag settings: both "
+    "bracketings give the same association list (keys, key order, key objects, values, list order) or both raise "
+    "TypeError. It uses of == only reflexivity (from well-formedness) and transitivity (pyEq_trans). The identity of the "
+    "raise site / the message is NOT preserved (merge_assoc_error_site_differs, replayed as case W-errsite); the harness "
+    "compares result or exception CLASS of both bracketings of every generated triple (clause assoc).",
 ]
 RULE = ("merge: exhaustive single-common-key pairs over a 24-value alphabet covering every kind x kind combination "
         "(E1, x 4 flag settings), every pair of ordered <=2-key dicts over keys x/True/1 (E2, key order and bool/int "
         "bridging), the same decision table one level down (E3), thorough: two common keys in opposite order (E4); random "
-        "related tree pairs of depth <= 4 beyond; triples (exhaustive T1 + random) run both bracketings; chains of 0-4 "
+        "related tree pairs of depth <= 4 beyond; triples (the two theorem witnesses W-errsite / W-bridge, exhaustive T1, "
+        "random) run both bracketings, whose result or exception class must coincide; chains of 0-4 "
         "recording sources (const/raise/echo/sysid, random versions incl. '|', one constituent version varied); find_system "
         "exhaustively over all answer sequences of length <= 4 in {None, id, '', raise} plus random; aggregate_version on "
         "random lists. A case is non-trivial if it has a key common to both trees / at least one source / at least one "
@@ -215,15 +226,21 @@ def judge(case, obs, resps):
         if obs["right"] is not None:
             one_merge("right", R[i], obs["right"], case["a"], obs["bc"]["ok"]); i += 1
         error_free = all(obs[n] is not None and "ok" in obs[n] for n in ("ab", "bc", "left", "right"))
-        if error_free:
-            if M.canon_outcome(obs["left"]) != M.canon_outcome(obs["right"]):
-                fail("assoc", {"left": obs["left"], "right": obs["right"], "a": case["a"], "b": case["b"], "c": case["c"]})
-            if M.canon_outcome(m3["left"]) != M.canon_outcome(m3["right"]):
-                disagree({"model_not_associative": {"left": m3["left"], "right": m3["right"]}})
+        # merge_assoc_outcome: result, or exception class, of merge(merge(a,b),c) and merge(a,merge(b,c)) are the same
+        # (an exception of the inner call is the exception of the whole bracketing)
+        lo = obs["left"] if obs["left"] is not None else obs["ab"]
+        ro = obs["right"] if obs["right"] is not None else obs["bc"]
+        if M.canon_outcome(lo) != M.canon_outcome(ro):
+            fail("assoc", {"left": lo, "right": ro, "a": case["a"], "b": case["b"], "c": case["c"]})
+        if M.canon_outcome(m3["left"]) != M.canon_outcome(m3["right"]):
+            disagree({"model_not_associative": {"left": m3["left"], "right": m3["right"]}})
         for n in ("left", "right"):
             if obs[n] is not None and M.canon_outcome(m3[n]) != M.canon_outcome(obs[n]):
                 disagree({"step": n + " (model from a,b,c)", "model": M.canon_outcome(m3[n]), "impl": obs[n]})
         label += "/" + ("errorfree" if error_free else "exc")
+        if scope.startswith("W-") and "exc" in lo and "exc" in ro:
+            msg = obs.get("msg", {})
+            label += "/" + ("same-message" if msg.get("left") == msg.get("right") else "different-message")
     elif kind == "chain":
         r = R[0]
         if obs["mutated"]:
